@@ -202,6 +202,7 @@ let run_cl (op : string) (args : string array) (draws : (string * string) list) 
   | "clrandnumber" -> c_randnumber (t_z (a 0)) ds
   | "clrandprime" -> c_randprime (t_z (a 0)) ds
   | "clrandqr" -> c_randqr (t_z (a 0)) ds
+  | "clprim" -> c_prim (t_z (a 0)) (t_zl (a 1))
   | _ ->
     let k = cl_suite_id (a 0) in
     (match op with
